@@ -94,6 +94,8 @@ structure S where
   big : Option Nat := none            -- c.bigMessage.Size while the window is open
   txN : Nat := 0
   reconnectWait : Nat := 0             -- nanoseconds; the ramp-up state of ReadBackoff
+  holdEx : Bool := false               -- the application does not read its exchange channels for now (driver)
+  heldEx : List Ev := []
   lastRs : Option Err := none          -- the error of the last ReadSlices return (none: a message); kept by the driver
   txs : List Tx := []
   ping : Option String := none        -- tag of the Ping call owning the slot
@@ -296,7 +298,11 @@ def S.afterHolder (s : S) : S := S.drainLockq (s.lockq.length + 1) s
 
 /-- a waiter that found the live connection performs its write -/
 def S.runWaiters (s : S) : S :=
-  let s' := s.waiters.foldl (fun s (tag, k) => s.runWriter tag k) s
+  let s' := s.waiters.foldl (fun s (tag, k) =>
+    -- a waiter that meets a write gate becomes the holder of the write lock; later ones queue behind it
+    if s.held.isSome then { s with lockq := s.lockq ++ [(tag, k)] }
+    else if s.link == .live && s.gateAhead then { s with held := some (tag, k) }
+    else s.runWriter tag k) s
   { s' with waiters := [] }
 
 /-- `toOffline` (client.go:566-597) -/
